@@ -18,7 +18,7 @@ class Contract(object):
     def __init__(self, fid, requires='True', ensures=(), raises=None, may_raise=None,
                  modifies=None, on_raise=None, transparent=False, exact_raises=True,
                  props=(), note='', invariants=None, bounded=None, assume_pre=(),
-                 lemmas=None, decreases=None, args_domain=None, classify=None):
+                 lemmas=None, decreases=None, args_domain=None, classify=None, ghosts=()):
         self.fid = fid
         self.requires = requires            # python expression over the parameters
         self.ensures = list(ensures)        # expressions over parameters, `result`, old(...)
@@ -37,6 +37,8 @@ class Contract(object):
         self.decreases = decreases
         self.args_domain = args_domain
         self.classify = classify            # witness -> class label (for known findings)
+        self.ghosts = tuple(ghosts)         # logical variables of a lemma contract (fid has a #tag)
+        self.base_fid = fid.split('#')[0]
         REGISTRY[fid] = self
 
 
@@ -46,6 +48,13 @@ def contract(fid, **kw):
 
 def spec(fn):
     SPECS[fn.__name__] = fn
+    try:
+        import textwrap
+        src = textwrap.dedent(inspect.getsource(fn))
+        node = ast.parse(src).body[0]
+        SPEC_SOURCES[fn.__name__] = node
+    except (OSError, TypeError, IndexError):
+        pass
     return fn
 
 
@@ -95,7 +104,16 @@ def implies(a, b):
     return (not a) or bool(b)
 
 
+def same(a, b):
+    """identical value including its type (0 and 0.0 and False are all different)"""
+    if type(a) is not type(b):
+        return False
+    if isinstance(a, (tuple, list)):
+        return len(a) == len(b) and all(same(x, y) for x, y in zip(a, b))
+    return a == b
+
+
 NATIVE_ENV = {
     'is_int': is_int, 'is_bool': is_bool, 'is_str': is_str, 'is_tuple': is_tuple, 'is_list': is_list,
-    'is_none': is_none, 'is_float': is_float, 'implies': implies,
+    'is_none': is_none, 'is_float': is_float, 'implies': implies, 'same': same,
 }
